@@ -337,10 +337,15 @@ def rule_a5_span(chk: Check):
         m = dict(zip(keys, vals))
         # end must be `<last non-whitespace token>.end`
         endvar = None
+        LAST = "self._tokenizer.get_last_non_whitespace_token()"
         for st in span.body:
             if isinstance(st, ast.Assign) and len(st.targets) == 1 and isinstance(st.targets[0], ast.Name):
-                if norm_stmt(st.value) == "self._tokenizer.get_last_non_whitespace_token().end":
+                if norm_stmt(st.value) == LAST + ".end":
                     endvar = st.targets[0].id
+                elif norm_stmt(st.value) == LAST:
+                    endvar = st.targets[0].id + ".end"
+        if endvar is None and LAST + ".end[0]" in vals:
+            endvar = LAST + ".end"
         want = {"lineno": params[1], "col_offset": params[2],
                 "end_lineno": f"{endvar}[0]", "end_col_offset": f"{endvar}[1]"}
         ok = endvar is not None and m == want
